@@ -355,6 +355,17 @@ func (c *evalCtx) binary(x *ast.BinaryExpr) tval {
 }
 
 func (c *evalCtx) structEq(a, b Value) Term {
+	// an interior address (field of a struct, element of an array) is never nil
+	if _, isLoc := a.(*Loc); isLoc {
+		if t, ok := b.(Term); ok && t.S == "0" {
+			return BoolLit(false)
+		}
+	}
+	if _, isLoc := b.(*Loc); isLoc {
+		if t, ok := a.(Term); ok && t.S == "0" {
+			return BoolLit(false)
+		}
+	}
 	switch x := a.(type) {
 	case Term:
 		y, ok := b.(Term)
